@@ -290,7 +290,11 @@ def main():
     ap.add_argument("--out", default="/tmp/mutsweep.json")
     ap.add_argument("--recheck", default="")
     ap.add_argument("--ops", default="", help="comma-separated prefixes of operator descriptions to keep")
+    ap.add_argument("--base", default="", help="mutate this tree (package + tests) instead of /repo, e.g. one kept by tools/machinetwins.py --keep")
     args = ap.parse_args()
+    if args.base:
+        global REPO
+        REPO = args.base
     files = [f for f in args.files.split(",") if f] or sorted(
         os.path.relpath(os.path.join(d, f), REPO) for d, _, fs in os.walk(os.path.join(REPO, PKG)) for f in fs if f.endswith(".py") and f != "__init__.py")
     muts = generate(files)
